@@ -45,3 +45,11 @@ def _kf_c08_inline_zero(what, inp):
 @predicate('KF-C08-segyio-structured')
 def _kf_c08_segyio_structured(what, inp):
     return isinstance(inp, dict) and inp.get('irregular') and inp.get('segyio_reports_structured')
+
+
+@predicate('KF-C19-2d-subbit')
+def _kf_c19_2d_subbit(what, inp):
+    if not (isinstance(inp, dict) and inp.get('is2d') and 'not resolved to itself' in what and inp.get('impl') == 'err value'):
+        return False
+    exp = str(inp.get('expected', '')).split()
+    return len(exp) == 5 and exp[0] == 'ok' and exp[1] in ('1', '2') and exp[2] == '1'
